@@ -279,6 +279,12 @@ func runRPCStress(args []string) {
 	transport := args[3]
 	lazy := args[4] == "1" || args[4] == "2"
 	unlimited := args[4] == "2" // a Remote as a library user builds it: no limit on pending calls configured
+	// "3": abandoned calls pile up past the Remote's limit of pending entries (50, oldest 10 discarded): the first 62 calls of
+	// every caller on A are abandoned after sending and answered late, the calls after them are made while entries are evicted
+	lateBurst := 0
+	if args[4] == "3" {
+		lateBurst = 62
+	}
 	statusFile = args[6]
 	tr, err := newTrace(args[5])
 	if err != nil {
@@ -316,7 +322,7 @@ func runRPCStress(args []string) {
 	var wg sync.WaitGroup
 	outstanding := sync.Map{}
 	eps := []string{"A", "B"}
-	if wideDepth >= 0 {
+	if wideDepth >= 0 || lateBurst > 0 {
 		eps = []string{"A"}
 	}
 	for _, ep := range eps {
@@ -332,6 +338,12 @@ func runRPCStress(args []string) {
 					mode := []string{"plain", "plain", "plain", "cancel", "late"}[rng.Intn(5)]
 					if wideDepth >= 0 {
 						depth, mode = wideDepth, "plain"
+					}
+					if lateBurst > 0 && fakeClock {
+						depth = 0
+						if i < lateBurst {
+							mode = "late"
+						}
 					}
 					if wideDepth >= 0 && unlimited {
 						mode = "gated" // held by the handler until every caller's request is in flight (released below)
